@@ -33,7 +33,10 @@ def cases(draw, tier):
                 prev = blocks[-1]['gates']
                 members = prev[: max(1, len(prev) // 2)]
             blocks.append({'name': f'blk{b}', 'gates': members,
-                           'outputs': members[-1:], 'explicit_inputs': draw(st.booleans())})
+                           'outputs': members[-1:], 'explicit_inputs': draw(st.booleans()),
+                           # an explicit input list may name anything, also members of the block itself
+                           'inputs': [draw(st.integers(0, len(labs) - 1)) for _ in range(draw(st.integers(0, 3)))]
+                           + ([members[0]] if draw(st.booleans()) else [])})
     return {'nl': nl, 'route': draw(gen.routes(nl)), 'blocks': blocks, 'uuid_seed': draw(st.integers(0, 2 ** 20)),
             'entry': draw(st.sampled_from(['into_bench', 'into_bench', 'into_bench', 'convert_gate']))}
 
@@ -98,7 +101,7 @@ def check_bench(case):
     for b in case['blocks']:
         gl = [labs[i] for i in b['gates']]
         if b['explicit_inputs']:
-            c.make_block(b['name'], gl, [labs[i] for i in b['outputs']], inputs=[])
+            c.make_block(b['name'], gl, [labs[i] for i in b['outputs']], inputs=[labs[i] for i in b.get('inputs', [])])
         else:
             c.make_block(b['name'], gl, [labs[i] for i in b['outputs']])
     n = len(nl['inputs'])
